@@ -397,14 +397,14 @@ type Caps struct {
 	Defaults       bool
 	ListsInLists   bool
 	Int64          bool
-	NoEnums        bool  // struct-backed Reflect cannot read an unset string-typed enum field
-	ValueLists     bool  // some slice lists hold struct values instead of pointers
-	ChoiceDefaults bool  // choices may name a default case
-	Embeds         bool  // struct-backed nodeutil.Node: some fields are promoted from an embedded struct
-	ConvSlices     bool  // some int32 leaf-lists are []int64 fields
+	NoEnums        bool     // struct-backed Reflect cannot read an unset string-typed enum field
+	ValueLists     bool     // some slice lists hold struct values instead of pointers
+	ChoiceDefaults bool     // choices may name a default case
+	Embeds         bool     // struct-backed nodeutil.Node: some fields are promoted from an embedded struct
+	ConvSlices     bool     // some int32 leaf-lists are []int64 fields
 	KeyTypes       []string // further key leaf types (besides string and, with IntKeys, int32)
-	NoPlainLeaves  bool  // leaves only as list keys (a store that cannot tell a zero scalar from an unset one and does not ignore zeros)
-	Fixture        *Node // the store holds fixed Go types: schemas are seeded sub-schemas of this one
+	NoPlainLeaves  bool     // leaves only as list keys (a store that cannot tell a zero scalar from an unset one and does not ignore zeros)
+	Fixture        *Node    // the store holds fixed Go types: schemas are seeded sub-schemas of this one
 }
 
 func FullCaps() Caps {
